@@ -5,7 +5,7 @@
    share nothing is checked by the correspondence (identity tests, alternating suffixes). *)
 From Coq Require Import List Arith Bool.
 Import ListNotations.
-From PySM Require Import Impl.Engine Impl.Registry Impl.History Proofs.EngineProofs Proofs.CopyProofs.
+From PySM Require Import Impl.Engine Impl.Registry Impl.History Impl.Process Proofs.EngineProofs Proofs.CopyProofs Proofs.ProcessProofs.
 
 (* a clone taken at any idle point of a sync machine that has a state IS the original's
    configuration: same stored state, same call history, nothing queued, lock free *)
@@ -49,6 +49,17 @@ Theorem C17_clone_responds_like_original :
     tl (run_ops beh md (S f) (OClone :: ops) c) = run_ops beh md (S f) ops c.
 Proof. exact clone_then_suffix_equals_suffix. Qed.
 Print Assumptions C17_clone_responds_like_original.
+
+(* independence: original and clone are two objects of the process; driving one - any operations, in
+   any interleaving with the other's - never changes what the other returns, raises, stores or logs,
+   nor the object it ends as *)
+Theorem C17_driving_one_never_affects_the_other :
+  forall fuel h1 h2 p1 p2 i m,
+    nth_error p1 i = Some m -> nth_error p2 i = Some m -> own_ops i h1 = own_ops i h2 ->
+    own_obs i (snd (prun fuel p1 h1)) = own_obs i (snd (prun fuel p2 h2))
+    /\ nth_error (fst (prun fuel p1 h1)) i = nth_error (fst (prun fuel p2 h2)) i.
+Proof. exact process_isolation. Qed.
+Print Assumptions C17_driving_one_never_affects_the_other.
 
 Example C17_nonvacuous :
   clone_md {| md_states := []; md_trans := []; md_start := 0; md_rtc := true; md_allow := true;
